@@ -6,8 +6,13 @@ def setSites : List (String × String × String × String) := [
   ("matching.py", "__iter__", "iter", "self._edges"),
   ("matching.py", "__repr__", "comprehension", "self._edges"),
   ("matching.py", "bounds", "comprehension", "self._edges"),
+  ("matching.py", "free_destinations", "for", "destination.edges()"),
+  ("matching.py", "free_sources", "for", "source.edges()"),
+  ("matching.py", "symmetric_difference", "for", "ret._edges"),
   ("matching.py", "tighten_bounds", "for", "r"),
+  ("matching.py", "tighten_bounds", "for", "y.edges()"),
   ("object_set.py", "__iter__", "for", "self.objs"),
+  ("object_set.py", "__str__", "map", "self.objs"),
   ("printer.py", "__enter__", "for", "self.marks"),
   ("printer.py", "__exit__", "for", "self.marks - self._state_before"),
   ("printer.py", "marks_str", "join", "self._marks")
